@@ -263,6 +263,7 @@ def main(argv=None):
     ap.add_argument('--nproc', type=int, default=None)
     args = ap.parse_args(argv)
     modname = f'mc.props.{args.pid}'
+    sys.argv = ['verif', '--no-log']      # mpyc parses sys.argv when imported
     mod = importlib.import_module(modname)
     if args.replay:
         with open(args.replay) as f:
